@@ -89,9 +89,10 @@ pub fn plan_for(prop: &str, tier: Tier, seed: u64, verif_dir: &str) -> Option<Pl
 				job("lnsim", "forward", n(400, 10000)),
 				job("lnsim", "crash", n(400, 10000)),
 				job("lnsim", "tamper", n(400, 10000)),
+				job("lnsim", "deadlinecrash", n(400, 10000)),
 			],
 			level: "exploration".into(),
-			rule: "profiles `offchain`, `forward`, `crash`: every call that reaches the signer seam (sign_counterparty_commitment, validate_holder_commitment, release_commitment_secret, sign_holder_commitment, HTLC signing) and every transaction handed to the broadcaster is recorded and fed to a per-channel revocation automaton written from BOLT 2. Oracles: C05-1 a secret is released only after a newer holder commitment was validated, C05-2 a revoked holder commitment (or HTLC tx on it) is never signed, re-validated or broadcast, nor revoked after broadcast, C05-3 at most one unrevoked counterparty commitment is outstanding when signing and numbers advance by one, C05-4 revoke_and_ack carries exactly the released secret and the right next point; LDK's own TestChannelSigner policy assertions are treated as oracle failures. Crashes restore signer state from the durable monitors/manager only. Profile `tamper` adds a Byzantine peer: a revoke_and_ack whose secret was altered in flight (bit flip, or an unrelated valid scalar) or a commitment_signed whose signature was altered is delivered; C05-5 the receiver must fail the channel instead of advancing (it never stores a secret that does not match the announced commitment point), after which the run continues on chain with all other oracles armed. One evaluation = one seeded run (config, schedule and faults all drawn from the run seed; replay executes the recorded action trace). non-trivial = the run executed at least one payment/HTLC to a terminal state or fired at least one fault; distinct = distinct FNV hash of the executed (action kind, actor) sequence.".into(),
+			rule: "profiles `offchain`, `forward`, `crash`: every call that reaches the signer seam (sign_counterparty_commitment, validate_holder_commitment, release_commitment_secret, sign_holder_commitment, HTLC signing) and every transaction handed to the broadcaster is recorded and fed to a per-channel revocation automaton written from BOLT 2. Oracles: C05-1 a secret is released only after a newer holder commitment was validated, C05-2 a revoked holder commitment (or HTLC tx on it) is never signed, re-validated or broadcast, nor revoked after broadcast, C05-3 at most one unrevoked counterparty commitment is outstanding when signing and numbers advance by one, C05-4 revoke_and_ack carries exactly the released secret and the right next point; LDK's own TestChannelSigner policy assertions are treated as oracle failures. Crashes restore signer state from the durable monitors/manager only. Profile `tamper` adds a Byzantine peer: a revoke_and_ack whose secret was altered in flight (bit flip, or an unrelated valid scalar) or a commitment_signed whose signature was altered is delivered; C05-5 the receiver must fail the channel instead of advancing (it never stores a secret that does not match the announced commitment point), after which the run continues on chain with all other oracles armed. Profile `deadlinecrash` (see C08) lets the chain pass HTLC expiries so that ChannelMonitors broadcast holder commitments on their own, with crashes in between. One evaluation = one seeded run (config, schedule and faults all drawn from the run seed; replay executes the recorded action trace). non-trivial = the run executed at least one payment/HTLC to a terminal state or fired at least one fault; distinct = distinct FNV hash of the executed (action kind, actor) sequence.".into(),
 			assumptions: t_assumptions.clone(),
 			probes: vec![],
 			exhaustive: false,
@@ -127,9 +128,9 @@ pub fn plan_for(prop: &str, tier: Tier, seed: u64, verif_dir: &str) -> Option<Pl
 			property: "C08".into(),
 			tier,
 			seed,
-			jobs: vec![job("lnsim", "deadlines", n(600, 20000))],
+			jobs: vec![job("lnsim", "deadlines", n(600, 20000)), job("lnsim", "deadlinecrash", n(200, 6000))],
 			level: "exploration".into(),
-			rule: "profile `deadlines`: 3 real nodes, direct and forwarded payments (dust and non-dust, MPP), claims and fail-backs by the recipient at seeded moments relative to the advertised claim_deadline, while the chain advances up to ~400 blocks past HTLC expiries and one peer is gone for good (its node never returns) or cut off from the network and possibly healed later. Blocks are processed one at a time under the environment the property assumes: every live node sees each block when it is mined, responsive connected peers exchange all pending messages, monitor writes complete and broadcast transactions confirm within the block (T1-T3 at one block). Oracles: C08-3 after each fully processed block no channel a node still treats as open carries an outbound HTLC (known to a commitment) with expiry + LATENCY_GRACE_PERIOD_BLOCKS(3) <= height, nor an inbound HTLC the application claimed more than a block ago with expiry <= height + CLTV_CLAIM_BUFFER(36); C08-4 a ChannelClosed with reason HTLCsTimedOut is only reported when some HTLC of that channel had reached one of these deadlines (no early close); C08-5 a channel whose two peers were responsive throughout is never closed for an HTLC timeout (the upstream HTLC of a forward to a silent peer is failed back in time); C08-2 claim_funds called strictly below claim_deadline produces PaymentClaimed; C04-1 PaymentClaimable always leaves a claim window; wealth oracle after liquidation for every node that was not gone (a silent peer costs at most the HTLC's own channel, never the upstream HTLC). One evaluation = one seeded run (config, schedule and faults all drawn from the run seed; replay executes the recorded action trace). non-trivial = at least one payment reached a terminal event or one fault fired; distinct = distinct FNV hash of the executed (action kind, actor) sequence.".into(),
+			rule: "profile `deadlines`: 3 real nodes, direct and forwarded payments (dust and non-dust, MPP), claims and fail-backs by the recipient at seeded moments relative to the advertised claim_deadline, while the chain advances up to ~400 blocks past HTLC expiries and one peer is gone for good (its node never returns) or cut off from the network and possibly healed later. Blocks are processed one at a time under the environment the property assumes: every live node sees each block when it is mined, responsive connected peers exchange all pending messages, monitor writes complete and broadcast transactions confirm within the block (T1-T3 at one block). Oracles: C08-3 after each fully processed block no channel a node still treats as open carries an outbound HTLC (known to a commitment) with expiry + LATENCY_GRACE_PERIOD_BLOCKS(3) <= height, nor an inbound HTLC the application claimed more than a block ago with expiry <= height + CLTV_CLAIM_BUFFER(36); C08-4 a ChannelClosed with reason HTLCsTimedOut is only reported when some HTLC of that channel had reached one of these deadlines (no early close); C08-5 a channel whose two peers were responsive throughout is never closed for an HTLC timeout (the upstream HTLC of a forward to a silent peer is failed back in time); C08-2 claim_funds called strictly below claim_deadline produces PaymentClaimed; C04-1 PaymentClaimable always leaves a claim window; wealth oracle after liquidation for every node that was not gone (a silent peer costs at most the HTLC's own channel, never the upstream HTLC). Job `deadlinecrash` adds crashes and restarts (then C08-5 only judges channels whose peers never restarted). One evaluation = one seeded run (config, schedule and faults all drawn from the run seed; replay executes the recorded action trace). non-trivial = at least one payment reached a terminal event or one fault fired; distinct = distinct FNV hash of the executed (action kind, actor) sequence.".into(),
 			assumptions: t_assumptions.clone(),
 			probes: vec![
 				"channel_closed_for_htlc_timeout".into(),
